@@ -171,6 +171,11 @@ func NewRedisOutput(cfg RedisOutputConfig) *RedisOutput {
 	ro.outFilter.InsertCmdBlackList(cfg.Filter.CmdBlacklist, true)
 
 	ro.outFilter.InsertPrefixKeyBlackList([]string{config.CheckpointKey, config.NamespacePrefixKey})
+	if !ro.bisyncEnabled() {
+		// bookkeeping of a bidirectional link found in the source : the key filter looks at every key
+		// position of a command, the later touchesBisyncNamespace test at the first argument only
+		ro.outFilter.InsertPrefixKeyBlackList([]string{checkpoint.BisyncKeyPrefix + ":"})
+	}
 	keyFilter := cfg.Filter.KeyFilter
 	if keyFilter != nil {
 		ro.outFilter.InsertPrefixKeyBlackList(keyFilter.PrefixKeyBlacklist)
